@@ -463,10 +463,17 @@ def gen_spec(r, scenario: str, big: bool) -> dict:
     for v in vars_:
         if v["kind"] == "dynonly":
             v["echo"] = r.random() < 0.5
+    byref = False
+    if scenario == "fits" and version >= 5 and used <= 200 and r.random() < 0.35:
+        # a variable handed to a routine BY REFERENCE (followed by a by-value parameter): the routine's store must land in that variable
+        cands = [v for v in vars_ if v["kind"] in ("auto", "req") and v["home"] == 0]
+        for v in r.sample(cands, min(len(cands), r.choice([1, 2]))):
+            v["bump"] = r.randrange(1, 9)
+            byref = True
     expect = {"fits": "approve", "fpcap": "approve", "toomany": "toomany", "dup": "dup"}[scenario]
     return {"version": version, "scratch_opt": scratch_opt, "fp": fp, "nsub": nsub, "chain": chain, "vars": vars_,
             "shared": shared, "expect": expect, "scenario": scenario, "shared_options": r.random() < 0.5,
-            "abi_out": [j for j in abi_out if j <= nsub] if version >= 6 else []}
+            "abi_out": [j for j in abi_out if j <= nsub] if version >= 6 else [], "byref": byref}
 
 
 _SHARED_OPTIONS: dict = {}
@@ -535,9 +542,14 @@ def build_and_compile(spec: dict):
             return [o[0].store(m)]  # through the index: overwrites the slot currently pointed at
         return [o[0].set(m)]
 
+    def _bump(x, amount):
+        return x.store(x.load() + amount)
+    _bump.__annotations__ = {"x": pt.ScratchVar, "amount": pt.Expr, "return": pt.Expr}
+    bump = pt.Subroutine(pt.TealType.none, name="bump")(_bump) if spec.get("byref") else None
+
     def checks(v, o):
         k = v["kind"]
-        last = pt.Int(v["m2"] if v["m2"] is not None else v["m1"])
+        last = pt.Int((v["m2"] if v["m2"] is not None else v["m1"]) + (v.get("bump") or 0))
         A = pt.Assert
         if k == "auto":
             return [A(o[0].load() == last)]
@@ -579,6 +591,9 @@ def build_and_compile(spec: dict):
             seq += store1(v, objs[i])
         for i, v in mine:
             seq += store2(v, objs[i])
+        for i, v in mine:
+            if v.get("bump") and bump is not None:
+                seq.append(bump(objs[i][0], pt.Int(v["bump"])))
         def call(j):
             if j in abi_out:
                 return subs[j]().use(lambda v: pt.Assert(v.get() == pt.Int(code(j))))
@@ -769,6 +784,10 @@ def expected_scratch_count(spec: dict, d: Driver):
             n += 1      # the target never appears in a load/store line (only as `int k`); its cell is checked by execution
         else:
             n += SLOT_COST[x["kind"]]
+    if spec.get("byref") and any(x.get("bump") for x in spec["vars"]):
+        # the cursor holding the passed slot index is a scratch cell under either convention; the by-value parameter is one only
+        # under the scratch convention (a frame cell under frame pointers)
+        n += 1 if fp_on else 2
     ao = spec.get("abi_out") or []
     for j in ao:
         # the result of an ABI routine is received in a fresh ABI value of the caller (`.use`); the output cell itself is frame
